@@ -615,6 +615,8 @@ int main(int argc, char *argv[]) {
     }
   }
 
+  int status = 0;
+
   // Now output the table.
   if (!output_code_filename.empty()) {
     std::string output_buffer_str;
@@ -632,6 +634,7 @@ int main(int argc, char *argv[]) {
 
     if (!output_code_filename.open_write(output_code)) {
       nout << "Unable to write to " << output_code_filename << "\n";
+      status = 1;
     } else {
       output_code << output_buffer_str;
 
@@ -653,6 +656,14 @@ int main(int argc, char *argv[]) {
       if (build_python_native_wrappers) {
         write_python_table_native(output_code);
       }
+
+      // Flush and close explicitly, so that a write error (eg. a full disk)
+      // is noticed here instead of being swallowed by the destructor.
+      output_code.close();
+      if (output_code.fail()) {
+        nout << "Error writing to " << output_code_filename << "\n";
+        status = 1;
+      }
     }
   }
 
@@ -662,5 +673,5 @@ int main(int argc, char *argv[]) {
     exit(1);
   }
 
-  return (0);
+  return status;
 }
